@@ -37,8 +37,19 @@ def _alarm(signum, frame):
 def fork_call(fn: Callable[..., Any], *args, timeout: float = None) -> Any:
     """Run fn(*args) in a forked child, return its JSON-able result.
 
-    Raises HarnessError on crash / timeout of the child (never a verdict)."""
+    Raises HarnessError on crash / timeout of the child (never a verdict).  A timeout is
+    retried once with four times the allowance (executions are deterministic, so the retry
+    is the same execution; a loaded machine must not turn into a broken check)."""
     timeout = CHILD_TIMEOUT_S if timeout is None else timeout
+    try:
+        return _fork_call(fn, args, timeout)
+    except HarnessError as e:
+        if "timed out" not in str(e):
+            raise
+    return _fork_call(fn, args, 4 * timeout)
+
+
+def _fork_call(fn: Callable[..., Any], args, timeout: float) -> Any:
     r, w = os.pipe()
     sys.stdout.flush()
     sys.stderr.flush()
